@@ -1,9 +1,213 @@
 import BronVerif.Drive.Common
-/-! Driver handlers for C06. -/
+import BronVerif.Drive.C03
+import BronVerif.Drive.C01
+import BronVerif.Model.SignAlg
+import BronVerif.Model.Vss
+import BronVerif.Model.Epoch
+/-! Driver handlers for C06 (refresh / recovery / redistribution histories): every relation is
+evaluated in model curve arithmetic with the model's own reconstruction coefficients (`solveLeft`). -/
 namespace BronVerif.Drive.C06
-open BronVerif BronVerif.Drive
+open BronVerif BronVerif.Drive BronVerif.LinAlg BronVerif.SignAlg
+open BronVerif.Drive.C03 (splitBar parseMat parsePts parseShare shareOfRow firstSome parseSets)
 
-def handle (op : String) (_args : List String) (_rhs : String) : Verdict :=
-  .unsupported ("C06 op " ++ op)
+def holdersOf (labels : List Nat) : List Nat := labels.eraseDups
+
+/-- a parsed epoch: MSP, labels, per-holder share scalars -/
+structure Ep (q : Nat) where
+  rows : Nat
+  cols : Nat
+  labels : List Nat
+  M : Mat (Fp q)
+  shares : List (Nat × List (Fp q))
+
+def parseEp {q : Nat} [NeZero q] (rs cs labelsS ms sharesS : String) : Option (Ep q) := do
+  let rows ← rs.toNat?
+  let cols ← cs.toNat?
+  let labels ← parseDecList? labelsS
+  let M ← parseMat (p := q) rows cols ms
+  let shares ← (splitBar sharesS).mapM (parseShare (p := q))
+  if labels.length ≠ rows then none
+  some { rows, cols, labels, M, shares }
+
+def Ep.sor {q : Nat} [NeZero q] (e : Ep q) : Nat → Fp q := shareOfRow e.labels e.shares
+
+/-- the secret reconstructed from ALL holders with the model's coefficients -/
+def Ep.secret {q : Nat} [NeZero q] (e : Ep q) : Option (Fp q) :=
+  reconstruct e.M e.cols e.labels e.sor (holdersOf e.labels)
+
+/-- every holder has a share entry with one scalar per owned row -/
+def Ep.complete {q : Nat} [NeZero q] (e : Ep q) : Bool :=
+  (holdersOf e.labels).all fun id =>
+    match e.shares.find? (fun sh => sh.1 == id) with
+    | none => false
+    | some (_, vals) => vals.length == (rowsOf e.labels id).length
+
+def handleStep (C : Curves.Params) (pkS oR oC oL oM oSh nR nC nL nM nVS nSh qS uS : String) : Verdict :=
+  withPrime C.n (.unsupported "n=0") fun q =>
+  match parseEp (q := q) oR oC oL oM oSh, parseEp (q := q) nR nC nL nM nSh, Curves.parse? C pkS,
+        parsePts C nVS, parseSets qS, parseSets uS with
+  | some old, some new, some pkp, some V, some qsets, some usets =>
+    let g := GPt.gen C
+    let pk : GPt C := ⟨pkp⟩
+    if !old.complete then .unsupported "old epoch incomplete" else
+    match old.secret with
+    | none => .unsupported "old epoch does not reconstruct"
+    | some s0 =>
+      if decide (s0 • g ≠ pk) then .bad "secret-not-dlog-pk0" "the secret of the previous epoch does not lift to the original public key" else
+      if V.length ≠ new.cols then .bad "vv-length" s!"V has {V.length} entries, MSP has {new.cols} columns" else
+      if decide (V.head? ≠ some pk) then .bad "pk-changed" "V[0] of the new epoch differs from the original public key" else
+      if !new.complete then .bad "missing-share" "a holder of the current structure has no (complete) share" else
+      match firstSome new.shares (fun (id, vals) =>
+          if shareLiftOk new.M new.labels V g id vals then none
+          else some (.bad "new-share-does-not-verify" s!"share of holder {id} does not lift to M_j·V")) with
+      | some v => v
+      | none =>
+        match firstSome qsets (fun S =>
+            match reconstruct new.M new.cols new.labels new.sor S with
+            | none => some (.bad "qualified-set-not-spanning" s!"e0 not in the span of the rows of {S}")
+            | some s =>
+              if s ≠ s0 then some (.bad "secret-changed" s!"set {S} reconstructs {s.toHex}, before the step the secret was {s0.toHex}")
+              else if decide (s • g ≠ pk) then some (.bad "reconstruct-not-dlog-pk0" s!"set {S}")
+              else none) with
+        | some v => v
+        | none =>
+          match firstSome usets (fun S =>
+              match reconCoeffs new.M new.cols (rowsOfSet new.labels S) with
+              | none => none
+              | some _ => some (.bad "unqualified-set-spans" s!"e0 is in the span of the rows of unqualified {S}")) with
+          | some v => v
+          | none => .ok
+  | _, _, _, _, _, _ => .unsupported "parse"
+
+/-- `to:hex,hex;to:hex` -/
+def parseSubs {q : Nat} [NeZero q] (s : String) : Option (List (Nat × List (Fp q))) :=
+  if s == "-" then some [] else (s.splitOn ";").mapM (parseShare (p := q))
+
+def vsub {q : Nat} (a b : List (Fp q)) : List (Fp q) := List.zipWith (· - ·) a b
+def vaddF {q : Nat} (a b : List (Fp q)) : List (Fp q) := List.zipWith (· + ·) a b
+
+def handleRedist (C : Curves.Params) (a : List String) : Verdict :=
+  withPrime C.n (.unsupported "n=0") fun q =>
+  match a with
+  | [pkS, oR, oC, oL, oM, oVS, qS, zR, zC, zL, zM, zVS, nR, nC, nL, nM, nVS, sendS, cvS, subS, nSh] =>
+    match parseEp (q := q) oR oC oL oM "-", parseEp (q := q) zR zC zL zM "-", parseEp (q := q) nR nC nL nM nSh,
+          Curves.parse? C pkS, parsePts C oVS, parsePts C zVS, parsePts C nVS, parseDecList? qS, parseDecList? sendS,
+          (splitBar cvS).mapM (parsePts C), (splitBar subS).mapM (parseSubs (q := q)) with
+    | some old, some zer, some new, some pkp, some oV, some zV, some nV, some Q, some senders, some cvs, some subs =>
+      let g := GPt.gen C
+      let pk : GPt C := ⟨pkp⟩
+      if senders ≠ Q ∨ cvs.length ≠ Q.length ∨ subs.length ≠ Q.length then .unsupported "senders" else
+      if oV.length ≠ old.cols ∨ zV.length ≠ zer.cols ∨ nV.length ≠ new.cols then .bad "vv-length" "a verification vector has the wrong length" else
+      if decide (zV.head? ≠ some (0 : GPt C)) then .bad "zero-vv-not-identity" "the zero sharing's public value is not the identity" else
+      let rowsQ := rowsOfSet old.labels Q
+      match reconCoeffs old.M old.cols rowsQ, reconCoeffs zer.M zer.cols (List.range zer.rows) with
+      | none, _ => .bad "driving-set-unqualified" s!"e0 is not in the span of the rows of the previous holders {Q}"
+      | _, none => .unsupported "zero MSP does not span"
+      | some c, some cz =>
+        let labelsQ := rowsQ.map fun k => old.labels.getD k 0
+        let liftedQ : List (GPt C) := rowsQ.map fun k => gdot (old.M.getD k []) oV
+        let zlifted : List (GPt C) := (List.range zer.rows).map fun k => gdot (zer.M.getD k []) zV
+        let partials : List (GPt C) := Q.map fun id => Epoch.partialPk labelsQ c liftedQ zer.labels cz zlifted id
+        -- Σ partial public keys = pk0 (old V commits to the key and the shift sums to zero)
+        if decide (gsum partials ≠ pk) then .bad "partial-keys-do-not-sum-to-pk0" "Σ of the blinded partial public keys differs from the original public key" else
+        -- every sender's 0-th commitment is its blinded partial public key
+        match firstSome ((Q.zip cvs).zip partials) (fun ((id, cv), P) =>
+            if cv.length ≠ new.cols then some (.bad "vv-length" s!"contribution of {id}")
+            else if decide (cv.head? ≠ some P) then some (.bad "partial-pk-mismatch" s!"0-th commitment of previous holder {id} is not its blinded partial public key")
+            else none) with
+        | some v => v
+        | none =>
+          if decide (Epoch.vvSum new.cols cvs ≠ nV) then .bad "vv-not-sum-of-contributions" "the new verification vector is not the sum of the broadcast contributions" else
+          if decide (nV.head? ≠ some pk) then .bad "pk-changed" "V[0] of the new epoch differs from the original public key" else
+          -- every sub-share on the wire verifies against its sender's vector
+          match firstSome ((Q.zip cvs).zip subs) (fun ((id, cv), ss) =>
+              firstSome ss (fun (to, vals) =>
+                if Epoch.subShareOk new.M new.labels g cv to vals then none
+                else some (.bad "sub-share-does-not-verify" s!"sub-share {id}→{to}"))) with
+          | some v => v
+          | none =>
+            -- aggregation: share' = Σ sub-shares; a previous holder's own (unsent) contribution is
+            -- what is left and must verify against its own broadcast vector
+            match firstSome new.shares (fun (j, vals) =>
+                let received := (subs.filterMap fun ss => (ss.find? (fun p => p.1 == j)).map (·.2))
+                let total := received.foldl vaddF (List.replicate vals.length 0)
+                if Q.contains j then
+                  if received.length + 1 ≠ Q.length then some (.unsupported s!"sub-shares for {j}") else
+                  match (Q.zip cvs).find? (fun p => p.1 == j) with
+                  | none => some (.unsupported "own vector")
+                  | some (_, cv) =>
+                    if Epoch.subShareOk new.M new.labels g cv j (vsub vals total) then none
+                    else some (.bad "own-contribution-inconsistent" s!"share of {j} minus the received sub-shares does not verify against {j}'s own broadcast vector")
+                else
+                  if received.length ≠ Q.length then some (.unsupported s!"sub-shares for {j}") else
+                  if total = vals then none
+                  else some (.bad "share-not-sum-of-sub-shares" s!"holder {j}")) with
+            | some v => v
+            | none => .ok
+    | _, _, _, _, _, _, _, _, _, _, _ => .unsupported "parse"
+  | _ => .unsupported "redist arity"
+
+/-- `S/B` with comma-separated decimal ids -/
+def parsePair (s : String) : Option (List Nat × List Nat) :=
+  match s.splitOn "/" with
+  | [a, b] => do some ((← parseDecList? a), (← parseDecList? b))
+  | _ => none
+
+def handleMix (C : Curves.Params) (pkS rs cs lS mS shA shB pairsS : String) : Verdict :=
+  withPrime C.n (.unsupported "n=0") fun q =>
+  match parseEp (q := q) rs cs lS mS shA, parseEp (q := q) rs cs lS mS shB, Curves.parse? C pkS,
+        (splitBar pairsS).mapM parsePair with
+  | some ea, some eb, some pkp, some pairs =>
+    let g := GPt.gen C
+    let pk : GPt C := ⟨pkp⟩
+    if !ea.complete || !eb.complete then .unsupported "epoch incomplete" else
+    if pairs.isEmpty then .unsupported "no pairs" else
+    match ea.secret, eb.secret with
+    | some s0, some s1 =>
+      if decide (s0 • g ≠ pk) then .bad "secret-not-dlog-pk0" "epoch A" else
+      if s1 ≠ s0 then .bad "secret-changed" "the two epochs reconstruct different secrets" else
+      match firstSome pairs (fun (S, B) =>
+          let rows := rowsOfSet ea.labels S
+          match reconCoeffs ea.M ea.cols rows with
+          | none => some (.unsupported s!"mix set {S} is not qualified")
+          | some c =>
+            let labelsS := rows.map fun k => ea.labels.getD k 0
+            let MS := rows.map fun k => ea.M.getD k []
+            -- the mix is essential: Σ_{k∈B} c_k M_k has a non-zero entry beyond column 0
+            let w := Epoch.weightOn ea.cols labelsS B c MS
+            if (w.drop 1).all (· = 0) then some (.unsupported s!"mix pair {S}/{B} is not essential") else
+            let lam := Epoch.mixedShares labelsS B (rows.map ea.sor) (rows.map eb.sor)
+            if dot c lam = s0 then
+              some (.bad "mixed-epoch-reconstructs-secret" s!"holders {B} from the later epoch, the rest of {S} from the earlier one")
+            else none) with
+      | some v => v
+      | none => .ok
+    | _, _ => .unsupported "epoch does not reconstruct"
+  | _, _, _, _ => .unsupported "parse"
+
+def handle (op : String) (args : List String) (rhs : String) : Verdict :=
+  if rhs != "ok" then .unsupported ("rhs " ++ rhs) else
+  match op, args with
+  | "step", [curve, _kind, pk, oR, oC, oL, oM, oSh, nR, nC, nL, nM, nV, nSh, qs, us] =>
+    match Curves.byName? curve with
+    | none => .unsupported ("curve " ++ curve)
+    | some C => handleStep C pk oR oC oL oM oSh nR nC nL nM nV nSh qs us
+  | "redist", curve :: rest =>
+    match Curves.byName? curve with
+    | none => .unsupported ("curve " ++ curve)
+    | some C => handleRedist C rest
+  | "mix", [curve, pk, rs, cs, l, m, a, b, pairs] =>
+    match Curves.byName? curve with
+    | none => .unsupported ("curve " ++ curve)
+    | some C => handleMix C pk rs cs l m a b pairs
+  | "sign-ecdsa", [_proto, curve, pk, m, r, s] =>
+    match Curves.byName? curve with
+    | none => .unsupported ("curve " ++ curve)
+    | some C => C01.handleEcdsa C pk m r s "-" "-"
+  | "sign-schnorr", [variant, curve, pk, e, R, s] =>
+    match Curves.byName? curve with
+    | none => .unsupported ("curve " ++ curve)
+    | some C => C01.handleSchnorr C variant pk e R s "-"
+  | _, _ => .unsupported ("C06 op " ++ op)
 
 end BronVerif.Drive.C06
